@@ -40,12 +40,21 @@ class _SlimInstanceConfig:
         return cls(**kwargs)
 
     def price_per_hour(self, resource_rates, cores_mcpu, memory_bytes, storage_gib):
-        # any total order will do; this one makes later pools cheaper so that the "cheapest" loop has to replace its choice
+        # prices only ORDER the candidate pools, so the search sweeps orders (PRICE_POLICY): 'falling' makes every later pool
+        # cheaper (the "cheapest" loop has to replace its choice every time), 'rising' every later pool dearer (the first
+        # satisfying pool must stay the choice while the loop goes on over the others), 'mixed' a fixed pseudo-random order
         PRICE_CALLS.append(1)
-        return 1000.0 - len(PRICE_CALLS)
+        n = len(PRICE_CALLS)
+        if PRICE_POLICY[0] == 'rising':
+            return 1000.0 + n
+        if PRICE_POLICY[0] == 'mixed':
+            return float((n // 2 * 7919 + 13) % 101)  # n // 2: the two locations of one pool get the same price
+        return 1000.0 - n
 
 
 PRICE_CALLS = []
+PRICE_POLICIES = ('falling', 'rising', 'mixed')
+PRICE_POLICY = ['falling']
 
 
 class _ProductVersions:
@@ -407,7 +416,9 @@ def chk_selection(ru, gcp, az, icc, which=('worker_type', 'cheapest', 'job_priva
                     for pre in (True, False):
                         for label in ('', 'gpu', 'nosuch'):
                             for req_cloud in (cloud, other):
-                                for mode in which:
+                                for mode, policy in [(m_, p_) for m_ in which for p_ in (PRICE_POLICIES if m_ in ('cheapest', 'dispatch') else PRICE_POLICIES[:1])]:
+                                    PRICE_POLICY[0] = policy
+                                    del PRICE_CALLS[:]
                                     if mode == 'worker_type':
                                         name = 'InstanceCollectionConfigs.select_pool_from_worker_type'
                                         inp = {'pools': [p.name for p in pools], 'cloud': req_cloud, 'pool_label': label, 'worker_type': wt, 'cores_mcpu': c, 'memory_bytes': m, 'storage_bytes': s, 'preemptible': pre}
@@ -415,13 +426,13 @@ def chk_selection(ru, gcp, az, icc, which=('worker_type', 'cheapest', 'job_priva
                                         match = lambda p: p.cloud == req_cloud and p.worker_type == wt and p.preemptible == pre and p.label == label
                                     elif mode == 'cheapest':
                                         name = 'InstanceCollectionConfigs.select_cheapest_price_pool'
-                                        inp = {'pools': [p.name for p in pools], 'cloud': req_cloud, 'pool_label': label, 'cores_mcpu': c, 'memory_bytes': m, 'storage_bytes': s, 'preemptible': pre}
+                                        inp = {'pools': [p.name for p in pools], 'cloud': req_cloud, 'pool_label': label, 'cores_mcpu': c, 'memory_bytes': m, 'storage_bytes': s, 'preemptible': pre, 'price_order': policy}
                                         r = call(name, inp, cfg.select_cheapest_price_pool, req_cloud, label, c, m, s, pre)
                                         match = lambda p: p.cloud == req_cloud and p.preemptible == pre and p.label == label
                                     elif mode == 'dispatch':
                                         name = 'InstanceCollectionConfigs.select_inst_coll'
                                         use_wt = (c // 250) % 2 == 0
-                                        inp = {'pools': [p.name for p in pools], 'cloud': req_cloud, 'machine_type': None, 'pool_label': label, 'preemptible': pre, 'worker_type': wt if use_wt else None, 'cores_mcpu': c, 'memory_bytes': m, 'storage_bytes': s}
+                                        inp = {'pools': [p.name for p in pools], 'cloud': req_cloud, 'machine_type': None, 'pool_label': label, 'preemptible': pre, 'worker_type': wt if use_wt else None, 'cores_mcpu': c, 'memory_bytes': m, 'storage_bytes': s, 'price_order': policy}
                                         rr = call(name, inp, cfg.select_inst_coll, req_cloud, None, label, pre, wt if use_wt else None, c, m, s)
                                         need(isinstance(rr, tuple) and len(rr) == 2 and rr[1] is None, name, 'no-exception-object', inp, repr(rr))
                                         r = rr[0]
@@ -574,6 +585,78 @@ def chk_front_end(ru, gcp, az, icc):
                         _check_jp(name, inp, got, cloud, cloud, cores, mem_b, s_req)
 
 
+# ---------------------------------------------------------------------------------------------
+# job schema clean-up: the deprecated spelling of the storage request (top-level pvc_size) must come out of the real
+# validate_and_clean_jobs as resources.storage, next to the other resource requests of the job
+
+
+def load_validate():
+    """the real batch/front_end/validate.py with the real hailtop leaves it imports (parse, globals, utils.validate) loaded by
+    file: the hailtop package itself is not importable offline (generated version module, third-party imports)"""
+    import importlib
+    import importlib.util
+
+    def pkg(name):
+        if name not in sys.modules:
+            m = types.ModuleType(name)
+            m.__path__ = []
+            sys.modules[name] = m
+        return sys.modules[name]
+
+    def real(name, rel, package=False):
+        path = os.path.join(REPO, 'hail', 'python', rel)
+        spec_ = importlib.util.spec_from_file_location(name, path, submodule_search_locations=[os.path.dirname(path)] if package else None)
+        m = importlib.util.module_from_spec(spec_)
+        sys.modules[name] = m
+        spec_.loader.exec_module(m)
+        return m
+
+    for n in ('hailtop', 'hailtop.batch_client', 'hailtop.utils'):
+        pkg(n)
+    real('hailtop.batch_client.globals', 'hailtop/batch_client/globals.py')
+    parse = real('hailtop.batch_client.parse', 'hailtop/batch_client/parse.py')
+    real('hailtop.utils.validate', 'hailtop/utils/validate/__init__.py', package=True)
+    return importlib.import_module('batch.front_end.validate'), parse
+
+
+def chk_validate_and_clean_jobs(ru, gcp, az, icc):
+    import copy
+
+    name = 'validate_and_clean_jobs'
+    v, parse = load_validate()
+    bases = [
+        {'job_id': 1, 'process': {'type': 'docker', 'image': 'ubuntu:22.04', 'command': ['true']}},
+        {'job_id': 1, 'command': ['true'], 'image': 'ubuntu:22.04'},  # pre-`process` clients
+    ]
+    res_variants = [None, {}, {'cpu': '2'}, {'cpu': '0.25', 'memory': 'standard', 'preemptible': False}, {'machine_type': 'n1-standard-1'}]
+    storages = ['50Gi', '0.5Ti', '10Gi', '375G', '1', '0', '5Gib', 'lots']
+    for base in bases:
+        for rv in res_variants:
+            for sto in storages:
+                for spelling in ('pvc_size', 'resources.storage', 'both', 'none'):
+                    job = copy.deepcopy(base)
+                    if rv is not None:
+                        job['resources'] = copy.deepcopy(rv)
+                    if spelling in ('pvc_size', 'both'):
+                        job['pvc_size'] = sto
+                    if spelling in ('resources.storage', 'both'):
+                        job.setdefault('resources', {})['storage'] = sto
+                    inp = {'jobs': [copy.deepcopy(job)]}
+                    want = None if spelling == 'none' else sto
+                    schema_ok = bool(parse.STORAGE_REGEX.fullmatch(sto))
+                    try:
+                        v.validate_and_clean_jobs([job])
+                    except v.ValidationError as e:
+                        need(spelling == 'both' or (want is not None and not schema_ok), name, 'rejects-only-contradicting-spellings-or-a-value-the-storage-schema-rejects', inp, 'ValidationError(%r)' % (e.reason,))
+                        continue
+                    except Exception as e:
+                        raise Found(name, 'does-not-crash', inp, 'raised %r' % (e,))
+                    need(spelling != 'both' and (want is None or schema_ok), name, 'accepted-only-if-the-storage-schema-accepts-the-value', inp, job)
+                    got = job.get('resources') or {}
+                    need('pvc_size' not in job, name, 'deprecated-key-is-gone', inp, job)
+                    need(got.get('storage') == want, name, 'deprecated-pvc_size-becomes-the-storage-request-of-the-job', inp, {'resources_after': got, 'storage_request_accepted_by_the_schema': want})
+                    need({k: x for k, x in got.items() if k != 'storage'} == (rv or {}), name, 'other-resource-requests-are-kept-and-none-is-invented', inp, {'resources_after': got})
+
 
 CHECKERS = {
     'round_up_division': chk_round_up_division,
@@ -596,6 +679,7 @@ CHECKERS = {
     'JobPrivateInstanceManagerConfig.convert_requests_to_resources': lambda *m: chk_selection(*m, which=('job_private',)),
     'InstanceCollectionConfigs.select_inst_coll': lambda *m: chk_selection(*m, which=('dispatch',)),
     '_create_jobs[resources]': chk_front_end,
+    'validate_and_clean_jobs': chk_validate_and_clean_jobs,
 }
 
 
